@@ -5,15 +5,29 @@ use regex::{Captures, Regex};
 use std::borrow::Cow;
 
 pub(crate) fn escape_html_body(s: &str) -> Cow<'_, str> {
-    lazy_static! {
-        static ref REGEX: Regex = Regex::new("[<\"&]").unwrap();
+    escape_html_body_before(s, false)
+}
+
+/// Escape a text segment; `before_binding` tells that a `{{ ... }}` follows it immediately.
+pub(crate) fn escape_html_body_before(s: &str, before_binding: bool) -> Cow<'_, str> {
+    if !s.contains(|c| matches!(c, '<' | '"' | '&' | '{')) {
+        return Cow::Borrowed(s);
     }
-    REGEX.replace_all(s, |caps: &Captures| match &caps[0] {
-        "<" => "&lt;".to_owned(),
-        "\"" => "&quot;".to_owned(),
-        "&" => "&amp;".to_owned(),
-        _ => unreachable!(),
-    })
+    let mut ret = String::with_capacity(s.len() + 8);
+    let mut chars = s.chars().peekable();
+    while let Some(c) = chars.next() {
+        match c {
+            '<' => ret.push_str("&lt;"),
+            '"' => ret.push_str("&quot;"),
+            '&' => ret.push_str("&amp;"),
+            // a `{` directly before another `{` would open a binding when parsed again
+            '{' if chars.peek() == Some(&'{') || (before_binding && chars.peek().is_none()) => {
+                ret.push_str("&#123;")
+            }
+            c => ret.push(c),
+        }
+    }
+    Cow::Owned(ret)
 }
 
 pub(crate) fn escape_html_quote(s: &str) -> Cow<'_, str> {
